@@ -42,6 +42,8 @@ fn main() {
         "expr" => streams::expr(&mut rng, count, false, &mut emit),
         "expr-mutated" => streams::expr(&mut rng, count, true, &mut emit),
         "prog-fault" => streams::prog_faulty(&mut rng, count, "fault", &mut emit),
+        "disasm" => streams::disasm(&mut rng, count, &mut emit),
+        "trace" => streams::trace(&mut rng, count, &mut emit),
         "run" => streams::run(&mut rng, count, &mut emit),
         "prog-loop" => streams::prog_faulty(&mut rng, count, "loop", &mut emit),
         "prog" => streams::prog(&mut rng, count, extra.get(0).map(|s| s.as_str()).unwrap_or("dag"), &mut emit),
